@@ -5,18 +5,22 @@ F = "scylla/src/policies/timestamp_generator.rs:"
 PROPERTY = {
     "title": "client-side timestamps from the monotonic generator strictly increase",
     "level": "other",
-    "level_text": "Rely/guarantee reduction: Kani proves on the real code (complete over all i64 `last` values and all clock readings within +/-2^63 us, incl. stalls, repeats, steps back, pre-epoch) that compute_next(last) > last, and that one next_timestamp call, under arbitrary interference by other threads that only ever raise `last` (bounded to 2 interferences per call), performs exactly one successful compare_exchange(old,new) with new > old and returns that new; a Verus lemma over abstract traces shows that if every call satisfies this guarantee, all handed-out timestamps are pairwise distinct and strictly increasing per thread.",
-    "level_note": "Assumed: SeqCst compare_exchange/load on AtomicI64 are linearizable (hardware/std) and modelled by stubs; wall clock within 2^63 us of the epoch; last < i64::MAX; interference bounded to 2 failed CAS per call (the retry loop has no other bound). Not covered: the 'explicit statement timestamp is sent unchanged' half (lives in async connection code).",
-    "technique": "contract-based verification: Kani harnesses with rely/guarantee stubs for the atomic + Verus trace lemma",
+    "level_text": "Rely/guarantee reduction, all three steps deductive: (proof, unbounded) Verus proves on the extracted real compute_next that compute_next(last) > last for every clock reading (ahead, equal, stalled, stepped back, before the epoch), and on the extracted real next_timestamp that - for ANY number of lost compare-and-swap races - a call returns r only after it atomically replaced some old < r by r; (proof, unbounded) a Verus lemma over abstract traces shows that if every call satisfies this guarantee, all handed-out timestamps are pairwise distinct and strictly increasing per thread, for any number of threads and calls; (bounded, Kani) the same guarantee re-checked on the compiled code (real AtomicI64/Mutex/Instant plumbing, incl. the warning block) under at most 2 interferences per call.",
+    "level_note": "Assumed (listed in the evidence): SeqCst load/compare_exchange on AtomicI64 are linearizable (contracts of the two trusted accessors); wall clock below 2^63 us after the epoch; the cell never holds i64::MAX; the rate-limited warning block of compute_next is left unverified behind external_body in the Verus unit (it receives &self and two integers by value, so it cannot influence the result; its text is matched verbatim, so any edit inside it makes the unit undecided and leaves the decision to the Kani harnesses, which execute it); termination of the retry loop is not claimed (lock-freedom). Not covered: the 'explicit statement timestamp is sent unchanged' half (inline in async connection code).",
+    "technique": "contract-based deductive verification: Verus contracts on the extracted compute_next / next_timestamp (atomic cell behind two trusted accessors) + Verus trace lemma; Kani rely/guarantee harnesses as bounded re-check of the compiled code",
     "timeout": 900,
     "kani": [
         # (c18_compute_next - compute_next(last) > last standalone for all inputs - was registered for the thorough tier and removed:
         #  no answer within 45 min on the unchanged tree; the same fact is checked inside next_timestamp by the guarantee harness)
-        Harness("c18_next_timestamp_guarantee", "C18.next_timestamp.guarantee", "BOUNDED", "one call = exactly one successful CAS(old,new), new > old, returns new; under <= 2 interferences", bound="<= 2 interfering writes by other threads per call (unwind 4)", functions=[F + "MonotonicTimestampGenerator::next_timestamp"]),
-        Harness("c18_next_timestamp_two_calls", "C18.next_timestamp.thread_order", "BOUNDED", "two consecutive calls of one thread: second > first", bound="<= 2 interfering writes in total (unwind 4)", functions=[F + "MonotonicTimestampGenerator::next_timestamp"]),
+        Harness("c18_next_timestamp_guarantee", "C18.next_timestamp.guarantee", "BOUNDED", "one call = exactly one successful CAS(old,new), new > old, returns new; under <= 2 interferences", bound="<= 2 interfering writes by other threads per call (unwind 4)", backed_by="C18.MonotonicTimestampGenerator.next_timestamp.contract", functions=[F + "MonotonicTimestampGenerator::next_timestamp"]),
+        Harness("c18_next_timestamp_two_calls", "C18.next_timestamp.thread_order", "BOUNDED", "two consecutive calls of one thread: second > first", bound="<= 2 interfering writes in total (unwind 4)", backed_by="C18.MonotonicTimestampGenerator.next_timestamp.contract", functions=[F + "MonotonicTimestampGenerator::next_timestamp"]),
         Harness("c18_canary_always_last_plus_one", "C18.canary", "PROVED-C", "a false claim must be refuted", carries=False, canary=True),
     ],
     "verus": [
+        Unit("c18_generator", "C18", "c18_generator.vrs", desc={
+            "MonotonicTimestampGenerator::compute_next": "last < i64::MAX ==> compute_next(last) > last for EVERY clock reading (ahead, equal, behind, before the epoch); the rate-limited warning block is left unverified behind external_body (gets &self and two integers by value: cannot influence the result)",
+            "MonotonicTimestampGenerator::next_timestamp": "GUARANTEE of one call for ANY number of lost compare-and-swap races (partial correctness): r is returned only after this call atomically replaced some old < r by r (cas_event introduced only by a successful compare_exchange)",
+        }),
         Unit("c18_trace", "C18", "c18_trace.vrs", desc={
             "lemma_pairwise_distinct": "any history of guarantee-satisfying CAS steps: all returned timestamps pairwise distinct",
             "lemma_per_thread_increasing": "... and strictly increasing along each thread's calls",
@@ -26,5 +30,5 @@ PROPERTY = {
     "trusted_base": ["Kani/CBMC soundness", "stubs: SystemTime::now (any reading), Instant::now (zero), Atomic<i64>::load/compare_exchange (sequentially consistent cell + rely), std::rt::thread_cleanup (no-op, Kani ICE work-around)"],
     "assumptions": ["AtomicI64 SeqCst CAS is linearizable", "wall clock < 2^63 microseconds from the epoch", "other threads only raise `last` (they run the same code: the guarantee proved here is the rely)"],
     "not_covered": ["explicit statement timestamp precedence (connection.rs, async)", "unbounded CAS contention (liveness)"],
-    "explanation": "mixed: compute_next is a complete proof; the interference harnesses are bounded in the number of interferences; the trace lemma is unbounded",
+    "explanation": "compute_next, the one-call guarantee of next_timestamp and the trace lemma are unbounded Verus proofs; the Kani interference harnesses are bounded re-checks on the compiled code",
 }
